@@ -140,6 +140,9 @@ def parse_report(p):
     for line in p.stdout.splitlines():
         if line.startswith("REPORT "):
             return json.loads(line[7:])
+    why = vlib.died(p)
+    if why:
+        raise vlib.Died(why, p)
     raise vlib.ToolError(f"harness gave no report (rc={p.returncode}):\n{p.stdout[-2000:]}\n{p.stderr[-3000:]}")
 
 
